@@ -370,6 +370,7 @@ fn trees(seed: u64, n: u64) {
     let w = World::new();
     let mut out = String::new();
     near_limit(&w, &mut out);
+    translated_trees(&w, seed, n / 6, &mut out);
     for s in CORPUS {
         if let Some(m) = corpus_ms::<Segwitv0>(&w, false, s) {
             tree_line(&w, &m, "corpus", &mut out);
@@ -714,6 +715,260 @@ fn corpus_case(w: &World, kind: &'static str, s: &str) -> Option<Case> {
     Some(Case { desc, kind, ms_dump: vec![dump], exts: vec![ext_s], keys, abs, rel, internal: None })
 }
 
+// ------------------------------------------------------------------ translated objects
+// A descriptor is often written over abstract names or compressed keys and instantiated later with
+// `translate_pk`. The figures of the TRANSLATED object must describe the translated script: the ext
+// record depends on the keys (an uncompressed key is 66 bytes per key slot, a compressed one 34).
+
+/// Key -> "K<i>"
+struct ToNames<'a>(&'a World);
+impl<'a> miniscript::Translator<Key> for ToNames<'a> {
+    type TargetPk = String;
+    type Error = ();
+    fn pk(&mut self, k: &Key) -> Result<String, ()> { Ok(format!("K{}", self.0.key_index(k))) }
+    fn sha256(&mut self, h: &bitcoin::hashes::sha256::Hash) -> Result<String, ()> { Ok(h.to_string()) }
+    fn hash256(&mut self, h: &miniscript::hash256::Hash) -> Result<String, ()> { Ok(h.to_string()) }
+    fn ripemd160(&mut self, h: &bitcoin::hashes::ripemd160::Hash) -> Result<String, ()> { Ok(h.to_string()) }
+    fn hash160(&mut self, h: &bitcoin::hashes::hash160::Hash) -> Result<String, ()> { Ok(h.to_string()) }
+}
+/// "K<i>" -> key map[i]
+struct FromNames<'a>(&'a World, [usize; N_KEYS]);
+impl<'a> miniscript::Translator<String> for FromNames<'a> {
+    type TargetPk = Key;
+    type Error = ();
+    fn pk(&mut self, name: &String) -> Result<Key, ()> {
+        let i: usize = name.strip_prefix('K').ok_or(())?.parse().map_err(|_| ())?;
+        Ok(self.0.key(self.1[i], false))
+    }
+    fn sha256(&mut self, h: &String) -> Result<bitcoin::hashes::sha256::Hash, ()> { std::str::FromStr::from_str(h).map_err(|_| ()) }
+    fn hash256(&mut self, h: &String) -> Result<miniscript::hash256::Hash, ()> { std::str::FromStr::from_str(h).map_err(|_| ()) }
+    fn ripemd160(&mut self, h: &String) -> Result<bitcoin::hashes::ripemd160::Hash, ()> { std::str::FromStr::from_str(h).map_err(|_| ()) }
+    fn hash160(&mut self, h: &String) -> Result<bitcoin::hashes::hash160::Hash, ()> { std::str::FromStr::from_str(h).map_err(|_| ()) }
+}
+/// key i -> key map[i]
+struct Remap<'a>(&'a World, [usize; N_KEYS]);
+impl<'a> miniscript::Translator<Key> for Remap<'a> {
+    type TargetPk = Key;
+    type Error = ();
+    fn pk(&mut self, k: &Key) -> Result<Key, ()> { Ok(self.0.key(self.1[self.0.key_index(k)], false)) }
+    fn sha256(&mut self, h: &bitcoin::hashes::sha256::Hash) -> Result<bitcoin::hashes::sha256::Hash, ()> { Ok(*h) }
+    fn hash256(&mut self, h: &miniscript::hash256::Hash) -> Result<miniscript::hash256::Hash, ()> { Ok(*h) }
+    fn ripemd160(&mut self, h: &bitcoin::hashes::ripemd160::Hash) -> Result<bitcoin::hashes::ripemd160::Hash, ()> { Ok(*h) }
+    fn hash160(&mut self, h: &bitcoin::hashes::hash160::Hash) -> Result<bitcoin::hashes::hash160::Hash, ()> { Ok(*h) }
+}
+
+/// every compressed key becomes an uncompressed one / every other one does
+const MAP_UNC: [usize; N_KEYS] = [6, 7, 6, 7, 6, 7, 6, 7];
+const MAP_MIXED: [usize; N_KEYS] = [6, 1, 7, 3, 6, 5, 6, 7];
+
+/// the same tree built bottom-up with `from_ast` (every node re-typed): what the translated object must equal
+fn rebuild<Ctx: ScriptContext>(m: &Miniscript<Key, Ctx>) -> Option<Miniscript<Key, Ctx>> {
+    use miniscript::Terminal as T;
+    use std::sync::Arc;
+    let r = |x: &Arc<Miniscript<Key, Ctx>>| rebuild::<Ctx>(x).map(Arc::new);
+    let t: T<Key, Ctx> = match &m.node {
+        T::True => T::True,
+        T::False => T::False,
+        T::PkK(k) => T::PkK(k.clone()),
+        T::PkH(k) => T::PkH(k.clone()),
+        T::RawPkH(h) => T::RawPkH(*h),
+        T::After(t) => T::After(*t),
+        T::Older(t) => T::Older(*t),
+        T::Sha256(h) => T::Sha256(*h),
+        T::Hash256(h) => T::Hash256(*h),
+        T::Ripemd160(h) => T::Ripemd160(*h),
+        T::Hash160(h) => T::Hash160(*h),
+        T::Alt(x) => T::Alt(r(x)?),
+        T::Swap(x) => T::Swap(r(x)?),
+        T::Check(x) => T::Check(r(x)?),
+        T::DupIf(x) => T::DupIf(r(x)?),
+        T::Verify(x) => T::Verify(r(x)?),
+        T::NonZero(x) => T::NonZero(r(x)?),
+        T::ZeroNotEqual(x) => T::ZeroNotEqual(r(x)?),
+        T::AndV(x, y) => T::AndV(r(x)?, r(y)?),
+        T::AndB(x, y) => T::AndB(r(x)?, r(y)?),
+        T::AndOr(x, y, z) => T::AndOr(r(x)?, r(y)?, r(z)?),
+        T::OrB(x, y) => T::OrB(r(x)?, r(y)?),
+        T::OrD(x, y) => T::OrD(r(x)?, r(y)?),
+        T::OrC(x, y) => T::OrC(r(x)?, r(y)?),
+        T::OrI(x, y) => T::OrI(r(x)?, r(y)?),
+        T::Thresh(th) => {
+            let subs: Option<Vec<_>> = th.iter().map(|x| r(x)).collect();
+            T::Thresh(Threshold::new(th.k(), subs?).ok()?)
+        }
+        T::Multi(th) => T::Multi(th.clone()),
+        T::SortedMulti(th) => T::SortedMulti(th.clone()),
+        T::MultiA(th) => T::MultiA(th.clone()),
+        T::SortedMultiA(th) => T::SortedMultiA(th.clone()),
+    };
+    Miniscript::from_ast(t).ok()
+}
+
+/// the translations of a compressed-keyed source: directly (Key -> Key) and through abstract names
+fn translations<Ctx: ScriptContext>(w: &World, m: &Miniscript<Key, Ctx>) -> Vec<(&'static str, Miniscript<Key, Ctx>)> {
+    let mut v = Vec::new();
+    for (name, map) in [("unc", MAP_UNC), ("mixed", MAP_MIXED)] {
+        if let Ok(Ok(t)) = catch_unwind(AssertUnwindSafe(|| m.translate_pk(&mut Remap(w, map)))) {
+            v.push((if name == "unc" { "translated-key-unc" } else { "translated-key-mixed" }, t));
+        }
+        let via = catch_unwind(AssertUnwindSafe(|| {
+            let named: Miniscript<String, Ctx> = m.translate_pk(&mut ToNames(w)).ok()?;
+            named.translate_pk(&mut FromNames(w, map)).ok()
+        }));
+        if let Ok(Some(t)) = via {
+            v.push((if name == "unc" { "translated-name-unc" } else { "translated-name-mixed" }, t));
+        }
+    }
+    v
+}
+
+/// T line (tie + size oracles) and X line (translated.ext == from_ast-rebuilt.ext) of a translated miniscript
+fn translated_lines<Ctx: ScriptContext>(w: &World, origin: &str, t: &Miniscript<Key, Ctx>, out: &mut String) {
+    tree_line(w, t, origin, out);
+    let rb = catch_unwind(AssertUnwindSafe(|| rebuild::<Ctx>(t)));
+    let (same, rbs) = match rb {
+        Ok(Some(r)) => ((r.ext == t.ext && r.ty == t.ty) as u8, ext_str(&r.ext)),
+        Ok(None) => (0, "REJECTED".to_string()),
+        Err(_) => (0, "PANIC".to_string()),
+    };
+    writeln!(out, "Y {} {} | {} | same={} | {} | {}", ctx_name::<Ctx>(), origin, dump_str(w, &t.node), same, ext_str(&t.ext), rbs).unwrap();
+}
+
+const TRANSLATE_SOURCES: &[&str] = &[
+    "c:pk_h(K0)",
+    "and_v(v:pk(K0),pk(K1))",
+    "multi(2,K0,K1,K2)",
+    "and_v(v:c:pk_h(K0),multi(2,K1,K2,K3))",
+    "or_d(pk(K0),and_v(v:c:pk_h(K1),older(10)))",
+    "thresh(2,pk(K0),s:pk(K1),a:c:pk_h(K2))",
+    // 8 key slots: 531 bytes once every key is uncompressed, beyond the 520-byte P2SH limit
+    "multi(8,K0,K1,K2,K3,K4,K5,K0,K1)",
+];
+
+fn translated_trees(w: &World, seed: u64, n: u64, out: &mut String) {
+    for s in TRANSLATE_SOURCES {
+        if let Some(m) = corpus_ms::<Legacy>(w, false, s) {
+            for (o, t) in translations(w, &m) {
+                translated_lines(w, o, &t, out);
+            }
+        }
+        if let Some(m) = corpus_ms::<BareCtx>(w, false, s) {
+            for (o, t) in translations(w, &m) {
+                translated_lines(w, o, &t, out);
+            }
+        }
+    }
+    for c in 0..n {
+        let cseed = seed.wrapping_mul(9_000_011).wrapping_add(c);
+        let ci = CtxInfo { tap: false, legacy_like: true, n_keys: 6 };
+        let depth = (c % 4) as u32;
+        if c % 2 == 0 {
+            let r = catch_unwind(AssertUnwindSafe(|| Gen::new(w, cseed, ci).gen::<Legacy>(B::B, depth)));
+            if let Ok(Some(m)) = r {
+                for (o, t) in translations(w, &m) {
+                    translated_lines(w, o, &t, out);
+                }
+            }
+        } else {
+            let r = catch_unwind(AssertUnwindSafe(|| Gen::new(w, cseed, ci).gen::<BareCtx>(B::B, depth)));
+            if let Ok(Some(m)) = r {
+                for (o, t) in translations(w, &m) {
+                    translated_lines(w, o, &t, out);
+                }
+            }
+        }
+    }
+}
+
+fn case_of_legacy(w: &World, m: Miniscript<Key, Legacy>) -> Option<Case> {
+    let mut keys = Vec::new();
+    let mut abs = Vec::new();
+    let mut rel = Vec::new();
+    for k in m.iter_pk() {
+        let i = w.key_index(&k);
+        if !keys.contains(&i) {
+            keys.push(i);
+        }
+    }
+    for x in m.iter() {
+        match x.node {
+            miniscript::Terminal::After(t) => abs.push(t.to_consensus_u32()),
+            miniscript::Terminal::Older(t) => rel.push(t.to_consensus_u32()),
+            _ => {}
+        }
+    }
+    let dump = (dump_str(w, &m.node), m.encode().into_bytes());
+    let ext_s = ext_str(&m.ext);
+    let desc = Descriptor::new_sh(m).ok()?;
+    Some(Case { desc, kind: "sh", ms_dump: vec![dump], exts: vec![ext_s], keys, abs, rel, internal: None })
+}
+fn case_of_bare(w: &World, m: Miniscript<Key, BareCtx>) -> Option<Case> {
+    let mut keys = Vec::new();
+    let mut abs = Vec::new();
+    let mut rel = Vec::new();
+    for k in m.iter_pk() {
+        let i = w.key_index(&k);
+        if !keys.contains(&i) {
+            keys.push(i);
+        }
+    }
+    for x in m.iter() {
+        match x.node {
+            miniscript::Terminal::After(t) => abs.push(t.to_consensus_u32()),
+            miniscript::Terminal::Older(t) => rel.push(t.to_consensus_u32()),
+            _ => {}
+        }
+    }
+    let dump = (dump_str(w, &m.node), m.encode().into_bytes());
+    let ext_s = ext_str(&m.ext);
+    let desc = Descriptor::new_bare(m).ok()?;
+    Some(Case { desc, kind: "bare", ms_dump: vec![dump], exts: vec![ext_s], keys, abs, rel, internal: None })
+}
+
+/// descriptors over translated miniscripts: measured satisfactions / plans against the announced figures
+fn translated_descs(w: &World, seed: u64, n: u64, rng: &mut Rng, id: &mut u64) {
+    let mut emit = |case: Option<Case>, rng: &mut Rng, id: &mut u64| {
+        if let Some(case) = case {
+            for env in lock_envs(&case, rng) {
+                *id += 1;
+                let mut s = String::new();
+                desc_block(w, &case, &env, *id, false, rng, &mut s);
+                print!("{}", s);
+            }
+        }
+    };
+    for s in TRANSLATE_SOURCES {
+        if let Some(m) = corpus_ms::<Legacy>(w, false, s) {
+            for (_, t) in translations(w, &m) {
+                let c = catch_unwind(AssertUnwindSafe(|| case_of_legacy(w, t))).ok().flatten();
+                emit(c, rng, id);
+            }
+        }
+        if let Some(m) = corpus_ms::<BareCtx>(w, false, s) {
+            for (o, t) in translations(w, &m) {
+                if o.starts_with("translated-name") {
+                    let c = catch_unwind(AssertUnwindSafe(|| case_of_bare(w, t))).ok().flatten();
+                    emit(c, rng, id);
+                }
+            }
+        }
+    }
+    for c in 0..n {
+        let cseed = seed.wrapping_mul(9_000_011).wrapping_add(c);
+        let ci = CtxInfo { tap: false, legacy_like: true, n_keys: 6 };
+        let depth = 1 + (c % 3) as u32;
+        let r = catch_unwind(AssertUnwindSafe(|| Gen::new(w, cseed, ci).gen::<Legacy>(B::B, depth)));
+        if let Ok(Some(m)) = r {
+            let mut ts = translations(w, &m);
+            if !ts.is_empty() {
+                let (_, t) = ts.swap_remove((c as usize) % ts.len());
+                let cs = catch_unwind(AssertUnwindSafe(|| case_of_legacy(w, t))).ok().flatten();
+                emit(cs, rng, id);
+            }
+        }
+    }
+}
+
 /// tr() over a lopsided 9-leaf "ladder": leaf i sits at depth i+1 (the last two at depth 8). Only key 7
 /// gets signatures, and it appears only in the leaves at depth >= 7, so the planner / satisfier must take a
 /// leaf whose control block (33 + 32*7 = 257 bytes) needs a 3-byte length prefix in the witness.
@@ -768,6 +1023,7 @@ fn descs(seed: u64, n: u64) {
         }
         _ => println!("X corpus-rejected tr ladder"),
     }
+    translated_descs(&w, seed, n / 8, &mut rng, &mut id);
     for c in 0..n {
         let cseed = seed.wrapping_mul(1_000_003).wrapping_add(c);
         let depth = 1 + (c % 4) as u32;
